@@ -131,3 +131,10 @@ Definition check_hist (rr : bool) (lamq tolq : Q) (ly : layer) (ob0 : obs1) (ops
 Definition check_resize (shifted : bool) (old new : layer) (dval : Q) (S M : list (list Q)) : bool :=
   mat_eq (@reinit_bandit_grads bigQ B0 shifted old new (BigQ.of_Q dval) (toB S)) (toB M) &&
   has_dims (layer_numel new) (layer_numel new) M.
+
+(* numpy semantics assumed by the model, validated exhaustively on small arrays against the real numpy:
+   np.delete(arange(1..n), idx)  and  np.insert(arange(1..n), idx, 0)  for every index list up to length 3 *)
+Definition check_np_delete (n : nat) (cs : list (list nat * list nat)) : bool :=
+  forallb (fun c => forallb2 Nat.eqb (delete_idx (fst c) (seq 1 n)) (snd c)) cs.
+Definition check_np_insert (n : nat) (cs : list (list nat * list nat)) : bool :=
+  forallb (fun c => forallb2 Nat.eqb (insert_at (fst c) 0 (seq 1 n) 0) (snd c)) cs.
